@@ -114,17 +114,23 @@ func (fr *Frame) evalClause(src string, env *Env) string {
 			decl = append(decl, fmt.Sprintf("(%s %s)", bn, fr.ctx.sortOf(ty)))
 		}
 		body = strings.TrimSpace(body)
-		if strings.HasPrefix(body, "{") {
-			if i := strings.Index(body, "}"); i > 0 {
-				for _, p := range strings.Split(body[1:i], ";") {
-					pats = append(pats, patternTerm(fr.evalExpr(strings.TrimSpace(p), env.with(binds)).T))
-				}
-				body = strings.TrimSpace(body[i+1:])
+		// "{a; b}" is one multi-pattern; several groups "{a} {b}" are alternative patterns
+		var groups []string
+		for strings.HasPrefix(body, "{") {
+			i := strings.Index(body, "}")
+			if i <= 0 {
+				break
 			}
+			pats = pats[:0]
+			for _, p := range strings.Split(body[1:i], ";") {
+				pats = append(pats, patternTerm(fr.evalExpr(strings.TrimSpace(p), env.with(binds)).T))
+			}
+			groups = append(groups, ":pattern ("+strings.Join(pats, " ")+")")
+			body = strings.TrimSpace(body[i+1:])
 		}
 		inner := fr.evalClause(body, env.with(binds))
-		if len(pats) > 0 {
-			return fmt.Sprintf("(forall (%s) (! %s :pattern (%s)))", strings.Join(decl, " "), inner, strings.Join(pats, " "))
+		if len(groups) > 0 {
+			return fmt.Sprintf("(forall (%s) (! %s %s))", strings.Join(decl, " "), inner, strings.Join(groups, " "))
 		}
 		return fmt.Sprintf("(forall (%s) %s)", strings.Join(decl, " "), inner)
 	}
